@@ -477,7 +477,22 @@ func (e *UBJEnc) encodeValue(v model.V) {
 // commonType returns a marker every element can be written with, or 0.
 func (e *UBJEnc) commonType(vals []model.V) byte {
 	if len(vals) == 0 {
-		return 0
+		// an empty container may announce any element type
+		cands := []byte{'i', 'U', 'I', 'l', 'L', 'd', 'D', 'S'}
+		if !e.NoChar {
+			cands = append(cands, 'C')
+		}
+		if !e.NoHighPrec {
+			cands = append(cands, 'H')
+		}
+		if !e.NoZeroSizedTyped {
+			cands = append(cands, 'Z', 'T', 'F')
+		}
+		if !e.NoTypedNested {
+			cands = append(cands, '[', '{')
+		}
+		e.feat("typedempty")
+		return cands[e.choose(len(cands), "ubj_emptytype")]
 	}
 	k := vals[0].K
 	for _, v := range vals {
